@@ -223,7 +223,7 @@ Proof.
   pose proof (pair_by_id_upd (p_id p0) (set_p_state CandidatePairStateSucceeded) s2 p0 ltac:(reflexivity) Hid) as Hid3.
   assert (Hln3 : s_last_nom (fst (upd_pair (p_id p0) (set_p_state CandidatePairStateSucceeded) s2)) = Some v) by exact Hln.
   destruct (upd_pair (p_id p0) (set_p_state CandidatePairStateSucceeded) s2) as [s3 o3]. cbn [fst snd] in *.
-  rewrite Hnos. unfold seq at 1. unfold with_state at 1. rewrite Hid3, Hln3.
+  rewrite Hnos. unfold seq at 1. unfold seq at 1. unfold with_state at 1. rewrite Hid3, Hln3.
   change (p_nom_value (set_p_state CandidatePairStateSucceeded p0)) with (p_nom_value p0). rewrite Hnv.
   change (p_id (set_p_state CandidatePairStateSucceeded p0)) with (p_id p0).
   rewrite Z.eqb_refl. rewrite Bool.andb_true_r.
@@ -237,4 +237,51 @@ Proof.
     - apply selected_after_set. }
   destruct ((if negb _ then set_selected (p_id p0) else nop) s3) as [s4 o4]. cbn [fst snd] in *.
   unfold upd_pair, modify. cbn. exact Hsw.
+Qed.
+
+(* ---- a deferred nomination is consumed when its pair becomes valid ------------------------------------
+   (pion/ice never reset nominateOnBindingSuccess: every later success response on the pair replayed the
+   old nomination and could undo a newer renomination of another pair; repaired, see known_findings) *)
+Definition consumed (id : Z) (q : pair) : Prop := p_id q = id -> p_nom_on_succ q = false /\ p_nom_value q = None.
+
+Lemma consumed_tail id (bump : pair -> pair) s :
+  (forall q, p_id (bump q) = p_id q /\ p_nom_on_succ (bump q) = p_nom_on_succ q /\ p_nom_value (bump q) = p_nom_value q) ->
+  Forall (consumed id)
+    (s_checklist (fst ((upd_pair id (fun p => set_p_nom_value None (set_p_nom_on_succ false p)) ;; upd_pair id bump) s))).
+Proof.
+  intros Hb. unfold seq, upd_pair, modify. cbn. rewrite map_map. rewrite Forall_forall. intros q Hq.
+  apply in_map_iff in Hq. destruct Hq as [q0 [E Hin]]. subst q. unfold consumed.
+  destruct (Z.eqb_spec (p_id q0) id) as [E0|NE0]; cbn.
+  - rewrite E0, Z.eqb_refl. destruct (Hb (set_p_nom_value None (set_p_nom_on_succ false q0))) as [_ [H2 H3]].
+    intros _. rewrite H2, H3. split; reflexivity.
+  - apply Z.eqb_neq in NE0. rewrite NE0. intros E. apply Z.eqb_neq in NE0. contradiction.
+Qed.
+
+Lemma seq_assoc_fst (u w cl b : M) s :
+  fst ((u ;; ((w ;; cl) ;; b)) s) = fst ((cl ;; b) (fst (w (fst (u s))))).
+Proof.
+  unfold seq. destruct (u s) as [s1 o1]. cbn. destruct (w s1) as [s2 o2]. cbn. destruct (cl s2) as [s3 o3]. cbn.
+  destruct (b s3). reflexivity.
+Qed.
+
+Theorem deferred_nomination_consumed cfg m l r src s q rest p0 :
+  take_pending (m_tx m) (filter (fun q => since cfg s (q_ts q) <? maxBindingRequestTimeout) (s_pending s)) = Some (q, rest) ->
+  response_symmetric q l src = true ->
+  find_pair l r s = Some p0 -> p_nom_on_succ p0 = true ->
+  Forall (consumed (p_id p0)) (s_checklist (fst (handle_success_controlled cfg m l r src s))).
+Proof.
+  intros Htake Hsym Hfp Hnos.
+  unfold handle_success_controlled. unfold seq at 1. unfold invalidate_pending, modify at 1. cbn [fst snd app].
+  set (s1 := set_s_pending _ s).
+  unfold with_state at 1. change (s_pending s1) with (filter (fun q0 => since cfg s (q_ts q0) <? maxBindingRequestTimeout) (s_pending s)).
+  rewrite Htake. unfold seq at 1. unfold modify at 1. cbn [fst snd app].
+  rewrite Hsym. cbn [negb].
+  set (s2 := set_s_pending rest s1).
+  unfold with_state at 1. change (find_pair l r s2) with (find_pair l r s). rewrite Hfp.
+  rewrite Hnos.
+  match goal with |- context [let '(a, b) := ?X s2 in _] =>
+    let E := fresh "E" in destruct (X s2) as [s9 o9] eqn:E; cbn [fst snd];
+    replace s9 with (fst (X s2)) by (rewrite E; reflexivity)
+  end.
+  rewrite seq_assoc_fst. apply consumed_tail. intros q0. cbn. repeat split; reflexivity.
 Qed.
